@@ -111,13 +111,14 @@ type Sim struct {
 
 	// lifecycle observation (written on engine goroutines, read by actors
 	// at their own instants)
-	SearchGen    int
-	SearchActive bool
-	TimersLive   int
-	BusyWaiting  bool
-	LastEndT     int64
-	TimerFires   int
-	Rejected     int
+	SearchGen     int
+	SearchActive  bool
+	TimersLive    int
+	BusyWaiting   bool
+	LastEndT      int64
+	YieldsAtStart int64
+	TimerFires    int
+	Rejected      int
 	// StaleFires counts TimerFire events whose timer was spawned by an
 	// earlier search generation than the one running when it fired.
 	StaleFires []Ev
@@ -400,6 +401,7 @@ func hookEvent(kind int, a interface{}) {
 		s.SearchGen++
 		s.SearchActive = true
 		s.BusyWaiting = false
+		s.YieldsAtStart = s.Yields
 		s.record(kind, uint64(s.SearchGen))
 	case verifhook.SearchEnd:
 		s.SearchActive = false
